@@ -77,6 +77,10 @@ func (qpc *QuotaPreemptionContext) tryPreemption() {
 		}
 		return
 	}
+	// nothing to distribute: the usage above the new maximum is already being preempted
+	if resources.IsZero(qpc.preemptableResource) {
+		return
+	}
 	leafQueues := make(map[*Queue]*QuotaPreemptionContext)
 	getChildQueuesPreemptableResource(qpc.queue, qpc.preemptableResource, leafQueues)
 
